@@ -5,7 +5,7 @@ From Verif Require Import Lib.Wire C17.Model C17.Spec.
 Import ListNotations.
 Open Scope Z_scope.
 
-Definition OPW : nat := 11.
+Definition OPW : nat := 12.
 
 Definition at_ (l : list Z) (k : nat) : Z := nth k l 0.
 
@@ -15,7 +15,7 @@ Definition bits (m : Z) : list bool := map (fun i => Z.testbit m (Z.of_nat i)) (
 Definition dec_res (a : list Z) : option res :=
   if zb (at_ a 1) then
     Some (mkRes (zb (at_ a 2)) (at_ a 3) (at_ a 4) (at_ a 5) (zb (at_ a 6)) (at_ a 7) (at_ a 8)
-                (zb (at_ a 9)) (zb (at_ a 10)))
+                (zb (at_ a 9)) (zb (at_ a 10)) (zb (at_ a 11)))
   else None.
 
 Definition dec_pod (a : list Z) : option pod :=
@@ -29,7 +29,9 @@ Definition dec_op (a : list Z) : op :=
   else if k =? 3 then OSetBP (at_ a 1)
   else if k =? 4 then OTick (at_ a 1)
   else if k =? 5 then ORestart
-  else OStale (at_ a 1).
+  else if k =? 6 then OStale (at_ a 1)
+  else if k =? 7 then OSched (at_ a 1)
+  else OAlloc (at_ a 1).
 
 Fixpoint dec_ops (n : nat) (l : list Z) : list op :=
   match n with
@@ -38,32 +40,34 @@ Fixpoint dec_ops (n : nat) (l : list Z) : list op :=
   end.
 
 Definition decode (inp : list Z) : job * list op :=
-  (init_job (zb (at_ inp 0)) (zb (at_ inp 1)) (at_ inp 2) (zb (at_ inp 3)) (at_ inp 4) (zb (at_ inp 5)) (zb (at_ inp 6)),
-   dec_ops (Z.to_nat (at_ inp 7)) (skipn 8 inp)).
+  (init_job (zb (at_ inp 0)) (zb (at_ inp 1)) (at_ inp 2) (zb (at_ inp 3)) (at_ inp 4) (zb (at_ inp 5)) (zb (at_ inp 6)) (at_ inp 7),
+   dec_ops (Z.to_nat (at_ inp 8)) (skipn 9 inp)).
 
 (* ---- observations -> integers ---- *)
 Definition enc_stamp (s : stamp) : list Z :=
   [bz (st_rex s); st_rphase s; st_rnode s; st_rsched s; bz (st_rexpired s); st_rbound s;
    bz (st_needp s); bz (st_pdone s); st_puid s; st_pnode s].
-Definition enc_kind (k : ekind) : Z := match k with EEvict => 1 | ECreate => 2 | EDelete => 3 end.
-Definition enc_eff (e : effect) : list Z := enc_kind (ek e) :: bz (eok e) :: enc_stamp (est e).
+Definition enc_kind (k : ekind) : Z := match k with EEvict => 1 | ECreate => 2 | EDelete => 3 | EWrite => 4 end.
+Definition enc_eff (e : effect) : list Z := enc_kind (ek e) :: bz (eok e) :: enc_stamp (est e) ++ [eph e].
 Definition enc_job (j : job) : list Z :=
   [phase j; sstatus j; reason j; jnode j; spodref j; puid j; bz (rref j);
    cRC j; cRS j; cEv j; cPS j; cPB j; cBR j; cRB j].
-Definition enc_ores (r : option (bool * Z)) : list Z :=
-  match r with None => [0; 0; 0] | Some (l, ow) => [1; bz l; ow] end.
+Definition enc_ores (r : option (bool * Z * bool)) : list Z :=
+  match r with None => [0; 0; 0; 0] | Some (l, ow, on) => [1; bz l; ow; bz on] end.
 Definition enc_obs (o : oobs) : list Z :=
   Z.of_nat (length (o_effs o)) :: flat_map enc_eff (o_effs o) ++ enc_job (o_job o) ++ enc_ores (o_res o).
 
 (* ---- integers -> observations (the constant part of the job comes from the input) ---- *)
 Definition parse_kind (k : Z) : option ekind :=
-  if k =? 1 then Some EEvict else if k =? 2 then Some ECreate else if k =? 3 then Some EDelete else None.
+  if k =? 1 then Some EEvict else if k =? 2 then Some ECreate else if k =? 3 then Some EDelete
+  else if k =? 4 then Some EWrite else None.
 
 Definition parse_eff (a : list Z) : option effect :=
   match parse_kind (at_ a 0) with
   | Some k => Some (mkEff k (zb (at_ a 1))
                           (mkStamp (zb (at_ a 2)) (at_ a 3) (at_ a 4) (at_ a 5) (zb (at_ a 6)) (at_ a 7)
-                                   (zb (at_ a 8)) (zb (at_ a 9)) (at_ a 10) (at_ a 11)))
+                                   (zb (at_ a 8)) (zb (at_ a 9)) (at_ a 10) (at_ a 11))
+                          (at_ a 12))
   | None => None
   end.
 
@@ -71,9 +75,9 @@ Fixpoint parse_effs (n : nat) (l : list Z) : option (list effect * list Z) :=
   match n with
   | O => Some ([], l)
   | S n' =>
-      if Nat.ltb (length l) 12 then None else
-      match parse_eff (firstn 12 l) with
-      | Some e => match parse_effs n' (skipn 12 l) with
+      if Nat.ltb (length l) 13 then None else
+      match parse_eff (firstn 13 l) with
+      | Some e => match parse_effs n' (skipn 13 l) with
                   | Some (es, r) => Some (e :: es, r)
                   | None => None
                   end
@@ -82,12 +86,12 @@ Fixpoint parse_effs (n : nat) (l : list Z) : option (list effect * list Z) :=
   end.
 
 Definition parse_job (j0 : job) (a : list Z) : job :=
-  mkJob (paused j0) (direct j0) (ttl j0) (pvalid j0) (owner j0) (at_ a 5) (zb (at_ a 6))
+  mkJob (paused j0) (direct j0) (ttl j0) (pvalid j0) (owner j0) (tmpl j0) (at_ a 5) (zb (at_ a 6))
         (at_ a 0) (at_ a 1) (at_ a 2) (at_ a 3) (at_ a 4)
         (at_ a 7) (at_ a 8) (at_ a 9) (at_ a 10) (at_ a 11) (at_ a 12) (at_ a 13).
 
-Definition parse_ores (a : list Z) : option (bool * Z) :=
-  if zb (at_ a 0) then Some (zb (at_ a 1), at_ a 2) else None.
+Definition parse_ores (a : list Z) : option (bool * Z * bool) :=
+  if zb (at_ a 0) then Some (zb (at_ a 1), at_ a 2, zb (at_ a 3)) else None.
 
 Fixpoint parse_obs (j0 : job) (n : nat) (l : list Z) : option (list oobs) :=
   match n with
@@ -100,9 +104,9 @@ Fixpoint parse_obs (j0 : job) (n : nat) (l : list Z) : option (list oobs) :=
           match parse_effs (Z.to_nat k) t with
           | None => None
           | Some (es, r) =>
-              if Nat.ltb (length r) 17 then None else
-              match parse_obs j0 n' (skipn 17 r) with
-              | Some os => Some (mkObs es (parse_job j0 (firstn 14 r)) (parse_ores (skipn 14 (firstn 17 r))) :: os)
+              if Nat.ltb (length r) 18 then None else
+              match parse_obs j0 n' (skipn 18 r) with
+              | Some os => Some (mkObs es (parse_job j0 (firstn 14 r)) (parse_ores (skipn 14 (firstn 18 r))) :: os)
               | None => None
               end
           end
@@ -130,12 +134,13 @@ Definition prop_case (inp obs : list Z) : Z :=
   | None => 9
   end.
 
-(* non-trivial: the model run issues at least one recorded API call and the job changes in at
-   least two operations *)
+(* non-trivial: the model run issues at least one recorded API call other than a job write
+   (eviction, reservation create or delete) and the job changes in at least two operations *)
+Definition is_call (e : effect) : bool := match ek e with EWrite => false | _ => true end.
 Definition nontrivial_case (inp : list Z) : bool :=
   let '(j0, ops) := decode inp in
   let obs := observe j0 ops in
-  negb (Nat.eqb (length (flat_map o_effs obs)) 0) && Nat.leb 2 (changes j0 obs).
+  negb (Nat.eqb (length (filter is_call (flat_map o_effs obs))) 0) && Nat.leb 2 (changes j0 obs).
 
 Fixpoint eq_listZ (a b : list Z) : bool :=
   match a, b with
